@@ -186,7 +186,12 @@ class Out:
             self.facts[name] = val
         except Missing as e:
             site = re.sub(r"[^A-Za-z0-9_]", "_", f"{self.name}_{name}")
-            val = f"translator_site_missing_{site}  -- {e}"
+            if typ == "Bool":
+                # a shape fact that no longer holds: the module still compiles (so unrelated properties and the
+                # driver are not disturbed); every theorem that pins the fact stops checking
+                val = f"false  -- translator_site_missing_{site}  -- {e}"
+            else:
+                val = f"translator_site_missing_{site}  -- {e}"
             self.facts[name] = None
         self.lines.append(f"def {name} : {typ} := {val}" + (f"  -- {note}" if note else ""))
 
@@ -199,6 +204,42 @@ class Out:
 
 def lean_bool(b):
     return "true" if b else "false"
+
+
+def body_text(fn_node):
+    """the statements of a function (docstring dropped), comments and formatting normalised away by ast"""
+    stmts = [x for x in fn_node.body if not (isinstance(x, ast.Expr) and isinstance(x.value, ast.Constant)
+                                             and isinstance(x.value.value, str))]
+    return "\n".join(ln.rstrip() for x in stmts for ln in ast.unparse(x).splitlines() if ln.strip())
+
+
+def expect_text(code):
+    import textwrap
+    return "\n".join(ln.rstrip() for ln in ast.unparse(ast.parse(textwrap.dedent(code))).splitlines() if ln.strip())
+
+
+def sig_text(fn_node):
+    """the parameter list with defaults and annotations dropped to names/defaults only"""
+    a = fn_node.args
+    names = [x.arg for x in a.posonlyargs + a.args]
+    defaults = [None] * (len(names) - len(a.defaults)) + [ast.unparse(d) for d in a.defaults]
+    out = [n if d is None else f"{n}={d}" for n, d in zip(names, defaults)]
+    for x, d in zip(a.kwonlyargs, a.kw_defaults):
+        out.append(x.arg if d is None else f"{x.arg}={ast.unparse(d)}")
+    return ", ".join(out)
+
+
+def exact_body(cls_node, name, code, what=None, sig=None):
+    """'true' iff the body of `name` is exactly `code` (and, when given, its parameter list is `sig`); raises Missing otherwise"""
+    f = find_func(cls_node, name)
+    if body_text(f) != expect_text(code):
+        raise Missing(what or f"{name}: body differs from the transcribed one")
+    if sig is not None and sig_text(f) != sig:
+        raise Missing(f"{name}: parameter list is ({sig_text(f)}), transcribed ({sig})")
+    if f.decorator_list and not all(isinstance(d, ast.Name) and d.id in ("property", "staticmethod", "classmethod") or
+                                    (isinstance(d, ast.Attribute) and d.attr == "setter") for d in f.decorator_list):
+        raise Missing(f"{name}: unexpected decorator")
+    return "true"
 
 
 def cmp_matches(test, left_pred, op_type, right_pred):
@@ -953,7 +994,7 @@ def gen_comm(repo):
         s_ = unparse(f)
         empty = bool(re.search(r"rdata = self\._intf\.read\(\)\n\s+if not rdata:\n\s+self\._prev_read = _bytes\n\s+return \(None, None\)\n\s+_bytes \+= rdata", s_))
         short = bool(re.search(r"_bytes = _bytes\[i:\]\n\s+if len\(_bytes\) < self\._parse\.frame\.hdr_len:\n\s+self\._prev_read = _bytes\n\s+continue", s_))
-        drop1 = bool(re.search(r"if hdr\.err is not EParseError\.NOERR:\n\s+self\._prev_read = _bytes\[1:\]\n\s+continue", s_))
+        drop1 = bool(re.search(r"if hdr\.err is not EParseError\.NOERR:\n\s+self\._prev_read = _bytes\[1:\]\n\s+return \(None, None\)", s_))
         nosof = bool(re.search(r"if i < 0:\n\s+self\._prev_read = b''\n\s+return \(None, None\)", s_))
         return empty, short, drop1, nosof
     o.d("hdrReturnsOnEmptyRead", "Bool", lambda: lean_bool(read_hdr()[0]), "an empty read stores the buffer and returns")
@@ -980,7 +1021,9 @@ def _norm(src_):
         src_ = ast.unparse(ast.parse(textwrap.dedent(src_)))
     except SyntaxError:
         pass
-    return re.sub(r"\s+", " ", src_)
+    # keep the indentation (block structure matters: a statement moved out of an `if` is a different program);
+    # only blank lines and trailing blanks go
+    return "\n".join(ln.rstrip() for ln in src_.splitlines() if ln.strip())
 
 
 def gen_cfgshape(repo):
@@ -1032,12 +1075,15 @@ def gen_cfgshape(repo):
 
     def channels_write():
         if body(C, "channels_write") != _norm("""assert self.dev
+if self.dev.data.chmax == 0:
+    return
 if self.dev.data.div_supported:
     self._nxslib_channels_div()
 self._nxslib_channels_enable()"""):
-            raise Missing("channels_write: divider request only with divider support, then enable request")
+            raise Missing("channels_write: nothing for a device without channels; divider request only with divider support, then enable request")
         return "true"
-    o.d("channelsWriteShape", "Bool", channels_write)
+    o.d("channelsWriteShape", "Bool", channels_write,
+        "no-op for chmax = 0 (F18); otherwise divider request iff divider support, then enable request")
 
     def setter(name, vec, val):
         want = _norm(f"""with self._channels_lock:
@@ -1057,10 +1103,23 @@ self._nxslib_channels_enable()"""):
     o.d("disableSetterShape", "Bool", lambda: setter("ch_disable", "en_new", "False"))
 
     def divider_setter():
-        b = body(C, "ch_divider")
-        if not b.startswith(_norm("if div < 0 or div > 255: raise ValueError assert self.dev")):
-            raise Missing("ch_divider: range check 0..255 and device assertion first")
-        return setter("ch_divider", "div_new", "div")
+        return exact_body(C, "ch_divider", """
+if div < 0 or div > 255:
+    raise ValueError
+assert self.dev
+if not self.dev.data.div_supported and div > 0:
+    logger.error('divider not supported by device !')
+with self._channels_lock:
+    assert self._channels
+    if isinstance(chans, list):
+        for chan in chans:
+            self._channels.div_new[chan] = div
+    elif isinstance(chans, int):
+        self._channels.div_new[chans] = div
+    else:
+        raise TypeError
+""", "ch_divider: range check 0..255, device assertion, then only the requested divider vector under the channels lock",
+                          sig="self, chans, div")
     o.d("dividerSetterShape", "Bool", divider_setter)
 
     def is_enabled():
